@@ -36,6 +36,9 @@ impl Collect for Recorder {
     fn enabled(&self, _: &Metadata<'_>) -> bool {
         true
     }
+    fn max_level_hint(&self) -> Option<tracing_core::LevelFilter> {
+        Some(tracing_core::LevelFilter::TRACE)
+    }
     fn new_span(&self, attrs: &span::Attributes<'_>) -> span::Id {
         let mut st = STATE.lock().unwrap();
         st.names.push(attrs.metadata().name());
